@@ -668,7 +668,13 @@ run_sequence(const struct plan_s *pl, struct model_s *mo, const char *ops, int n
 				/* nothing like that is outstanding */
 				const char *cls = ended ? "resurrect" : was >= 0 ? "dup" : "alien";
 				model_str(ms, sizeof(ms), mo, delivered);
-				snprintf(sig, sizeof(sig), "%s/%s/after=%s/head=%s", cls, pc, AFTER, headclass(mo, k));
+				/* does the model hold several UIDs at this instant */
+				bool mixed = false;
+				for (int j = 0; j < mo->m; j++) {
+					mixed |= mo->e[j].key == r.key && mo->e[j].oid != r.oid;
+				}
+				snprintf(sig, sizeof(sig), "%s/%s/after=%s/head=%s/inst=%s", cls, pc, AFTER, headclass(mo, k),
+					 mixed ? "mixed-uids" : "one-uid");
 				if (!clonepass) vd_viol(sig, "ops=%.*s: step %d (%s) gives %s which %s; outstanding [%s]",
 					d + 1, ops, d + 1, op ? "pop" : "peek", occ_str(ob, sizeof(ob), mo, r),
 					was >= 0 ? "was delivered already" : "no constituent has", ms);
